@@ -28,7 +28,7 @@ def run(ctx):
     if ctx.replay:
         raise vlib.Inconclusive("replay of a determinism violation: re-run the check; the replay file holds the sources and both digests")
     c07.linker_models(ctx, ["types", "mixed", "modules"])
-    cases = c07.gen_programs(ctx, ["types", "consts", "mixed", "modules", "modsvcs", "lists", "aliasitem"], 40 if ctx.quick() else 1500, rng)
+    cases = c07.gen_programs(ctx, ["types", "consts", "mixed", "modules", "modsvcs", "lists", "aliasitem"], 40 if ctx.quick() else 900, rng)
     cf = os.path.join(ctx.dir("cases"), "cases.ndjson")
     vlib.write_ndjson(cf, cases)
     nbig, runs = (3, 3) if ctx.quick() else (40, 6)
